@@ -276,7 +276,9 @@ func (j *jsonReader) getMap() map[string]any {
 	if j.current != nil {
 		return j.current
 	}
-	j.current = j.value[0].(map[string]any)
+	// An item that is not a JSON object has no tag, type nor value: reading it fails
+	// on its missing tag.
+	j.current, _ = j.value[0].(map[string]any)
 	return j.current
 }
 
@@ -290,8 +292,7 @@ func (j *jsonReader) Type() Type {
 	if ty, ok := typeFromName(typ); ok {
 		return ty
 	}
-	//TODO: return error
-	panic("Invalid type")
+	return typeInvalid
 }
 
 // Tag implements reader.
